@@ -317,6 +317,17 @@ fn all_stacks(run: &mut Run, bv: &BitVec, thorough: bool) {
     stack!(run, "SelectAdaptConst(Rank9)", SelectAdaptConst::<_, _>::new(Rank9::new(b())); r b s);
     stack!(run, "SelectZeroAdaptConst(SelectAdaptConst(Rank9))", SelectZeroAdaptConst::<_, _>::new(SelectAdaptConst::<_, _>::new(Rank9::new(b()))); r b s z);
     stack!(run, "SelectAdaptConst<2,1>(SelectZeroAdaptConst<2,1>(Rank9))", SelectAdaptConst::<_, _, 2, 1>::new(SelectZeroAdaptConst::<_, _, 2, 1>::new(Rank9::new(b()))); r b s z);
+    // ---- structures whose backend was replaced after construction with `map` (the documented way of adding a
+    //      rank structure underneath an existing selector): everything but the backend must be carried over
+    stack!(run, "map:SelectAdapt(AddNumBits->Rank9)", unsafe { SelectAdapt::new(AddNumBits::from(b()), 3).map(|a| Rank9::new(a.into_inner())) }; r b s x);
+    stack!(run, "map:SelectAdapt(AddNumBits->Rank9)", unsafe { SelectAdapt::with_inv(AddNumBits::from(b()), 5, 1).map(|a| Rank9::new(a.into_inner())) }; r b s x);
+    stack!(run, "map:SelectZeroAdapt(SelectAdapt(AddNumBits->Rank9))",
+        unsafe { SelectZeroAdapt::new(SelectAdapt::new(AddNumBits::from(b()), 3), 3).map(|inner| inner.map(|a| Rank9::new(a.into_inner()))) }; r b s z);
+    stack!(run, "map:SelectAdaptConst(AddNumBits->Rank9)", unsafe { SelectAdaptConst::<_, _>::new(AddNumBits::from(b())).map(|a| Rank9::new(a.into_inner())) }; r b s);
+    stack!(run, "map:SelectZeroAdaptConst<2,1>(SelectAdaptConst<2,1>(AddNumBits->RankSmall<1,9>))",
+        unsafe { SelectZeroAdaptConst::<_, _, 2, 1>::new(SelectAdaptConst::<_, _, 2, 1>::new(AddNumBits::from(b()))).map(|inner| inner.map(|a| rank_small![1; a.into_inner()])) }; r b s z);
+    stack!(run, "map:Rank9(BitVec->BitVec<Box>)", unsafe { Rank9::new(b()).map(|v| -> BitVec<Box<[usize]>> { v.into() }) }; r b);
+    stack!(run, "map:RankSmall<3,13>(BitVec->BitVec<Box>)", unsafe { rank_small![4; b()].map(|v| -> BitVec<Box<[usize]>> { v.into() }) }; r b);
     // ---- RankSmall underneath its own selectors and the adaptive ones
     stack!(run, "SelectZeroSmall(SelectSmall(RankSmall<2,9>))", SelectZeroSmall::<2, 9, _>::new(SelectSmall::<2, 9, _>::new(rank_small![0; b()])); r b s z);
     stack!(run, "SelectZeroSmall(SelectSmall(RankSmall<1,9>))", SelectZeroSmall::<1, 9, _>::new(SelectSmall::<1, 9, _>::new(rank_small![1; b()])); r b s z);
